@@ -177,6 +177,7 @@ func c05(p *model.Prog, r *report.Result) {
 			nLoops++
 			// a guard before the loop: (tsA - tsB) cmp const
 			bounded := false
+			gapBehindLess := false
 			for _, b := range fn.Blocks {
 				if l.Body[b] {
 					continue
@@ -199,9 +200,36 @@ func c05(p *model.Prog, r *report.Result) {
 					_, isK := model.ConstInt(cmp.Y)
 					if ok && isK && sub.Op == token.SUB && model.DependsOn(sub.X, isTs) && model.DependsOn(sub.Y, isTs) {
 						bounded = true
+						// the gap test must not itself sit behind "minuend < subtrahend": then it is
+						// only evaluated for differences that wrapped, and a forward jump of any size
+						// reaches the loop untested
+						if cb, isInstr := v.(ssa.Instruction); isInstr {
+							fx, fy := model.LoadedField(model.Unwrap(sub.X)), model.LoadedField(model.Unwrap(sub.Y))
+							for _, g := range model.Guards(cb.Block()) {
+								gc, pol := model.StripNot(g.Cond, g.Polarity)
+								gb, isB := gc.(*ssa.BinOp)
+								if !isB || fx == nil || fy == nil {
+									continue
+								}
+								ga, gbb := model.LoadedField(model.Unwrap(gb.X)), model.LoadedField(model.Unwrap(gb.Y))
+								less := false // the edge implies sub.X < sub.Y
+								switch {
+								case ga == fx && gbb == fy:
+									less = (gb.Op == token.LSS && pol) || (gb.Op == token.GEQ && !pol)
+								case ga == fy && gbb == fx:
+									less = (gb.Op == token.GTR && pol) || (gb.Op == token.LEQ && !pol)
+								}
+								if less {
+									gapBehindLess = true
+								}
+							}
+						}
 					}
 					return false
 				})
+			}
+			if gapBehindLess {
+				bounded = false
 			}
 			r.Check(bounded, "C05.LOOP", fkey(fn, "ts-loop", "bounded-gap"), p.InstrPos(exitIf), "timestamp-driven loop preceded by a constant bound on the timestamp gap", "the number of iterations (each calling into the fan-out) is a timestamp difference chosen by the publisher, with no bound: one message can occupy the stream's lock for minutes, or forever at the 32-bit wrap")
 			// the exit comparison must not be computed in the timestamp's own 32-bit type when one
@@ -224,6 +252,7 @@ func c05(p *model.Prog, r *report.Result) {
 	c05Count(p, r)
 	c05Gate(p, r)
 	c05Split(p, r)
+	w5FeedAvSize(p, r, "C05.SIZE")
 	c05Progress(p, r, "C05.PROGRESS", []string{"pkg/avc", "pkg/hevc", "pkg/aac", "pkg/h2645", "pkg/remux", "pkg/mpegts", "pkg/base"}, 5)
 	r.Rule("C05.NILF", "fields that lal itself compares with nil somewhere (per-input state cleared when the input leaves, outputs created on demand) are, in every function reachable from the media entry points of the group, dereferenced only behind the non-nil edge of a test of the same field expression or a dominating non-nil store; reviewed exceptions are listed per (function, field)")
 	{
